@@ -1,7 +1,13 @@
 import Driver.Proto
 import PdtVerif.Model.StringMatch
+import PdtVerif.Model.StringMatchBatch
 /-! Driver for C01: runs the per-column model of `_string_matching` on every column of a batch
 and evaluates the declarative oracle (`lev` on the cut sequences) next to it.
+
+The TENSOR-level model (`Model/StringMatchBatch.lean`: whole tensors in the layout the library was
+given, `del_mat` with explicit `+inf`, `batch_first` transposition) is run on the batch as well; its
+output is returned under `"tensor"` (what the harness compares the library's raw tensor with) and must
+agree with the per-column model entry by entry (`C01_batch_eq` / `C01_batch_prefix_eq` say it does).
 
 Glue only; the model is `PdtVerif.StringMatch`, the oracle `PdtVerif.Lev.lev`. For long cut
 sequences (`|ref'| + |hyp'| > levLimit`) the exponential textbook recursion `lev` is replaced
@@ -16,8 +22,9 @@ def oracleLev (c : Costs) (r h : List Int) : Rat :=
 
 /-- case: {"cols": [{"ref": [..R ints..], "hyp": [..H ints..]} ..], "eos": int|null,
 "include_eos", "norm", "exclude_last": bool, "padding": int, "ins","del","sub": "n/d",
-"mode": "scalar"|"prefix"}.
-Reply: {"shortcut": bool, "cols": [{"model": "n/d" | ["n/d"..],
+"mode": "scalar"|"prefix", "R", "H": padded sizes, "batch_first": bool}.
+Reply: {"shortcut": bool, "tensor": {"shape": [..], "vals": ["n/d"..] | [["n/d"..]..]} (tensor-level model,
+  in the layout of the call), "cols": [{"model": "n/d" | ["n/d"..],
   "spec": {"ref_cut": [..], "hyp_cut": [..], "lev": "n/d", "prefix_lev": ["n/d"..] (prefix mode),
            "oracle": "lev"|"dpDist"}} ..]}.
 Fails (machinery error) when the model's value differs from what the theorems say it is. -/
@@ -35,7 +42,33 @@ def c01Batch : Handler := fun j => do
   let del ← getRat j "del"
   let sub ← getRat j "sub"
   let mode ← getStr j "mode"
+  let R ← getNat j "R"
+  let H ← getNat j "H"
+  let bf ← getBool j "batch_first"
   let c : Costs := ⟨ins, del, sub⟩
+  -- the tensors as the library receives them: (L, N), transposed to (N, L) under batch_first
+  let refSeq : Tensor2 Int := Tensor2.ofCols R (cols.map (·.1)) 0
+  let hypSeq : Tensor2 Int := Tensor2.ofCols H (cols.map (·.2)) 0
+  let refT := if bf then refSeq.t 0 else refSeq
+  let hypT := if bf then hypSeq.t 0 else hypSeq
+  let tensorJ ←
+    if mode == "scalar" then
+      match editDistanceT c eos inc norm bf refT hypT 0 with
+      | .error e => throw s!"tensor model raised {e} on an in-domain batch"
+      | .ok out =>
+        let perCol := cols.map (fun (rh : List Int × List Int) => editDistance c eos inc norm rh.1 rh.2)
+        if out != perCol then
+          throw s!"tensor model {out.map ratToString} differs from the per-column model {perCol.map ratToString}"
+        pure (objJ [("shape", listJ natJ [out.length]), ("vals", listJ ratToJson out)])
+    else
+      match prefixEditDistancesT c eos inc norm bf excl padding refT hypT 0 with
+      | .error e => throw s!"tensor model raised {e} on an in-domain batch"
+      | .ok T =>
+        let perCol := cols.map (fun (rh : List Int × List Int) => prefixEditDistances c eos inc norm excl padding rh.1 rh.2)
+        let mine := (List.range cols.length).map (fun n => if bf then T.rows.getD n [] else colOf T.rows n 0)
+        if mine != perCol then
+          throw s!"tensor model differs from the per-column model (prefix) at batch_first={bf}"
+        pure (objJ [("shape", listJ natJ [T.d0, T.d1]), ("vals", listJ (listJ ratToJson) T.rows)])
   let outs ← cols.mapM (fun (rh : List Int × List Int) => do
     let (r, h) := rh
     let rc := cut eos inc r
@@ -64,6 +97,27 @@ def c01Batch : Handler := fun j => do
         ("spec", objJ [("ref_cut", listJ intJ rc), ("hyp_cut", listJ intJ hc), ("lev", ratToJson d),
           ("prefix_lev", listJ ratToJson pl), ("oracle", strJ which)])]))
   pure (objJ [("shortcut", boolJ (c.ins == c.del && c.del == c.sub && decide (0 < c.sub))),
-    ("cols", Json.arr outs.toArray)])
+    ("tensor", tensorJ), ("cols", Json.arr outs.toArray)])
 
-def main : IO Unit := Proto.run [("c01.batch", c01Batch)]
+/-- case: {"ref_shape": [a, b], "hyp_shape": [c, d], "batch_first": bool, "mode"}: does the tensor-level
+model raise on all-zero 2-D tensors of these shapes (`C01_batch_mismatch`: iff the batch sizes differ)?
+Reply: {"raises": bool}. -/
+def c01Shapes : Handler := fun j => do
+  let rs ← getNatList j "ref_shape"
+  let hs ← getNatList j "hyp_shape"
+  let bf ← getBool j "batch_first"
+  let mode ← getStr j "mode"
+  let mk := fun (sh : List Nat) => (⟨sh.getD 0 0, sh.getD 1 0, List.replicate (sh.getD 0 0) (List.replicate (sh.getD 1 0) 0)⟩ : Tensor2 Int)
+  if rs.length != 2 || hs.length != 2 then throw "c01.shapes: only 2-D shapes can be modelled"
+  let raises :=
+    if mode == "scalar" then
+      match editDistanceT unitCosts none false false bf (mk rs) (mk hs) 0 with
+      | .error _ => true
+      | .ok _ => false
+    else
+      match prefixEditDistancesT unitCosts none true false bf false (-100) (mk rs) (mk hs) 0 with
+      | .error _ => true
+      | .ok _ => false
+  pure (objJ [("raises", boolJ raises)])
+
+def main : IO Unit := Proto.run [("c01.batch", c01Batch), ("c01.shapes", c01Shapes)]
